@@ -37,7 +37,7 @@ ASSUME = [
     "every lambda that is not applied directly is applied by the translator to closed values (call_Select, call_SelectMany, call_Where, Aggregate)",
     "names are compared as Python str",
 ]
-FUEL = 4000
+FUEL = 600  # bounds the depth of resolution only; Python's own limit is sys.getrecursionlimit()
 sys.setrecursionlimit(3000)
 
 # ------------------------------------------------------------------------------------------------
